@@ -103,6 +103,173 @@ CHECKS = {
         "monitors",
         "DESIGN.md §3 C05",
     ),
+    "C06": (
+        "model_checking",
+        "Complete decision table: titratable group (ASP GLU HIS CYS TYR LYS "
+        "ARG N+ C-) x chain position x 6 force fields x pH x pKa lattice (both "
+        "sides and equality), driven through main_driver with the pKa source "
+        "replaced by a harness table in PROPKA's row shape and through "
+        "apply_pka_values directly; a reference decision model built from the "
+        "independent force-field resolver decides what must happen (state "
+        "change, or default state plus warning); nothing may be dropped; "
+        "total charge is non-increasing along pH chains (heptapeptide with "
+        "all seven groups; thorough: real PROPKA on bundled proteins).",
+        "Support = resolver has every atom of the target state's topology "
+        "with integral charge; protonation read from written atom names.",
+        "exhaustive decision-table exploration of the implementation against "
+        "a reference decision model",
+        "DESIGN.md §3 C06",
+    ),
+    "C08": (
+        "model_checking",
+        "Complete products of per-field alphabets (all adjacent-column pairs "
+        "with full alphabets, reduced 3-value product over all 12 fields, "
+        "real serials up to 100001/1234567 through print_biomolecule_atoms) "
+        "x {fixed, --whitespace} x {--keep-chain}, written by the real "
+        "formatter and main.print_pqr, read back by an independent fixed-"
+        "column parser, an independent tokeniser and io.read_pqr; every "
+        "field must equal the model; plus end-to-end runs with extreme "
+        "numbering/offsets.",
+        "Fixed columns per the PDB-compatible layout, tokens per pqr.rst.",
+        "exhaustive enumeration of field-value products through the real "
+        "serialiser and readers",
+        "DESIGN.md §3 C08",
+    ),
+    "C09": (
+        "model_checking",
+        "Complete option lattice: 32 subsets of the five formatting options "
+        "x --ffout schemes x 6 force fields x 5 structures, each compared "
+        "with the subset-free run (identical atom order, residue numbers and "
+        "x/y/z/charge/radius strings); --drop-water vs physically water-"
+        "deleted input (byte equality); neutral-terminus flag subsets over "
+        "all 20 residue types at the chain ends (only terminal residues "
+        "change, charge shift = termini actually neutralised).",
+        "Relational oracle: no expected values, only relations between runs.",
+        "exhaustive configuration-lattice exploration with a differential "
+        "oracle",
+        "DESIGN.md §3 C09",
+    ),
+    "C10": (
+        "model_checking",
+        "3 (thorough 4) structures x all 128 subsets of {alt locs, insertion "
+        "codes, formal charges, 4-character names, two models, negative "
+        "numbering, HETATM waters} x {AMBER, PARSE} x {default, --clean}: "
+        "PDB text and an independently written mmCIF twin must give the same "
+        "atoms, coordinates, charges and radii; failing feature sets are "
+        "delta-minimised.",
+        "Only the installed mmcif_pdbx 2.1.0 can be executed; the mmCIF "
+        "writer is the harness's (header categories copied from 1FAS.cif).",
+        "exhaustive feature-subset exploration with a differential oracle",
+        "DESIGN.md §3 C10",
+    ),
+    "C11": (
+        "model_checking",
+        "Search over run histories in one process: every sequence of <=2 "
+        "(thorough <=3) runs from an 8-run alphabet (successes and failures, "
+        "titration, ligand, --clean, user force field) executed in a fresh "
+        "child process; each run's PQR bytes must equal those of the run "
+        "alone in a fresh process; every run repeated under several hash "
+        "seeds; a structural fingerprint of pdb2pqr's module-level state "
+        "after every run gives the states/transitions of the process-state "
+        "graph.",
+        "Fingerprint sees Python-level pdb2pqr state only; never used for "
+        "pruning.",
+        "bounded-depth exhaustive history search with a differential oracle",
+        "DESIGN.md §3 C11",
+    ),
+    "C12": (
+        "fault_enumeration",
+        "Success grid (33 input names x 3 positions x 6 force fields, strands "
+        "for nucleic force fields) must complete; failure side: 10 argument "
+        "classes, 9 input classes, and an injected fault at each of 26 "
+        "pipeline call sites x call occurrence {first, second, last} x 4 "
+        "exception types x output path {absent, pre-existing sentinel}; "
+        "output-path state machine: a failing run leaves absent->absent / "
+        "old->old (bytes and mtime), a new file is complete.",
+        "Faults are raised at stage entry; the final file write itself is "
+        "outside the stages the property lists.",
+        "exhaustive fault-site x occurrence x exception enumeration on the "
+        "implementation",
+        "DESIGN.md §3 C12",
+    ),
+    "C13": (
+        "exploration",
+        "SG..SG distance lattice around 2.5 A x 8 layouts x input-HG patterns "
+        "x CYS chain position x force fields x option sets; both partners "
+        "bridged (no HG, bridged parameters, mutual pointers) below the "
+        "limit, both free above it, independent of order/chain/numbering.",
+        "Distance is a continuum put on a lattice (hence 'exploration').",
+        "complete lattice product exploration of the pipeline",
+        "DESIGN.md §3 C13",
+    ),
+    "C14": (
+        "model_checking",
+        "(1) exhaustive per-axis cell-key check for sizes 2 and 5 over a "
+        "boundary lattice; (2) explicit-state search of the real Cells "
+        "object: 2 (thorough 3) atoms x boundary lattice positions x "
+        "{add, remove, move, query}, every abstract state built by two "
+        "different real histories whose concrete cell maps must agree, "
+        "query invariant after every transition (10k states / 778k "
+        "transitions quick); (3) every neighbour query of real pipeline runs "
+        "compared with brute force, cell map audited for stale/ghost entries "
+        "after every optimiser step.",
+        "Operations follow the cell list's protocol; (3) detects protocol "
+        "breaches by the pipeline.",
+        "explicit-state model checking of the real data structure + run-time "
+        "monitor",
+        "DESIGN.md §3 C14",
+    ),
+    "C15": (
+        "exploration",
+        "Every (template, atom, reference neighbours) placement tuple of "
+        "AA.xml/NA.xml/PATCHES.xml x rotation lattice x translations up to "
+        "9e4 A through quatfit.find_coordinates (exact image to 1e-6 A, no "
+        "mirror image, equivariance); every template dihedral x target "
+        "angle lattice through Debump.set_dihedral_angle, "
+        "Residue.rotate_tetrahedral and qchichange (angle to 0.05 degrees, "
+        "axis distances kept).",
+        "SO(3) and R^3 on lattices.",
+        "complete template-domain x lattice exploration of the numerical "
+        "routines",
+        "DESIGN.md §3 C15",
+    ),
+    "C16": (
+        "exploration",
+        "All connected molecules of <=3 (thorough <=4) heavy atoms over 22 "
+        "Sybyl types (+ ring families, 16 bundled ligands) x atom orders x "
+        "naming schemes x bond-record orders through the real MOL2 reader "
+        "and PEOE: conservation, name independence, order dependence only up "
+        "to automorphisms, documented radii; complexes peptide + ligand + "
+        "all 32 subsets of other hetero groups x colliding names.",
+        "Phosphorus groups are not judged by the independent formal-charge "
+        "model (the code documents a heuristic).",
+        "bounded exhaustive molecule/permutation enumeration",
+        "DESIGN.md §3 C16",
+    ),
+    "C17": (
+        "exploration",
+        "Atom sets on scaled/offset lattices x radii x 3 PQR layouts x sizing "
+        "parameters; every <=2-insertion program of 16 non-atom line kinds at "
+        "every gap; bulk lattices; 49 bundled PQR files; io.dump_apbs and "
+        "--apbs-input end to end; oracle = the property's arithmetic in "
+        "exact integers.",
+        "Lattice geometry; the memory clause is checked for the grid the "
+        "report prints.",
+        "bounded exhaustive input/program enumeration against reference "
+        "arithmetic",
+        "DESIGN.md §3 C17",
+    ),
+    "C18": (
+        "exploration",
+        "All grid shapes {1..4}^3 (thorough {1..6}^3) + shapes hitting every "
+        "residue mod 3/6 x value patterns (1e-30..1e5, ties, zero) x origins "
+        "x spacings x atom lists x DX styles through read_dx/read_pqr/"
+        "write_cube; independent cube parser; exact decimal comparison.",
+        "Negative counts = angstrom units convention (stated).",
+        "bounded exhaustive shape/pattern enumeration with an independent "
+        "parser",
+        "DESIGN.md §3 C18",
+    ),
 }
 
 NOT_YET = {}
